@@ -401,6 +401,7 @@ def main(argv=None):
     ap.add_argument('--no-bounded', action='store_true')
     ap.add_argument('--no-evidence', action='store_true')
     ap.add_argument('-v', action='store_true')
+    ap.add_argument('--dump-obligations', help='write [name, status] of every obligation to this file')
     a = ap.parse_args(argv)
     prop = a.prop
     tier = a.tier if a.tier in ('quick', 'thorough') else 'quick'
@@ -498,6 +499,9 @@ def main(argv=None):
         lines.append('VIOLATION property=%s replay=%s' % (prop, p))
         lines.append('  bounded check %s: %s' % (b['name'], fl.get('what')))
     n_obl = len(obs)
+    if a.dump_obligations:
+        with open(a.dump_obligations, 'w') as fh:
+            json.dump([[o.name, o.status] for o in obs], fh)
     n_dis = sum(1 for o in obs if o.status == 'discharged')
     undec = [o for o in obs if o.status in ('undecided', 'unreach')]
     # ---- evidence
@@ -537,6 +541,9 @@ def main(argv=None):
         print('  ERROR no obligations generated')
         return 3
     if undec:
+        return 2
+    if any(o.status == 'bounded' for o in obs):
+        # refuted by the solver, no failing input found natively: undecided
         return 2
     return 0
 
